@@ -271,3 +271,93 @@ Proof.
     repeat first [ apply incr_de_fields; intros | apply incr_rep; intros | apply IH | apply incr_de_nat | apply incr_de_int
                  | incr_step | incr_case | progress cbv beta ].
 Qed.
+
+
+(* ================= Part 3: the budget is never overdrawn ================= *)
+Definition within (l : lim) (c : cnt) : Prop :=
+  match fst l with Some q => fst c <= q | None => True end /\ match snd l with Some q => snd c <= q | None => True end.
+Definition Resp {A} (m : M A) : Prop := forall l c, within l c -> within l (fst (m l c)).
+Lemma resp_ret {A} (a : A) : Resp (ret a). Proof. intros l c H; exact H. Qed.
+Lemma resp_liftR {A} (r : res A) : Resp (liftR r). Proof. intros l c H; exact H. Qed.
+Lemma resp_failM {A} e : Resp (@failM A e). Proof. intros l c H; exact H. Qed.
+Lemma resp_bind {A B} (m : M A) (k : A -> M B) : Resp m -> (forall a, Resp (k a)) -> Resp (bindM m k).
+Proof.
+  intros Hm Hk l c Hw. unfold bindM. specialize (Hm l c Hw). destruct (m l c) as [c1 r]. cbn [fst] in Hm.
+  destruct r as [a|e| |]; cbn [fst]; try exact Hm. apply Hk; exact Hm.
+Qed.
+Lemma resp_catch {A} (m h : M A) : Resp m -> Resp h -> Resp (catch_sub m h).
+Proof.
+  intros Hm Hh l c Hw. unfold catch_sub. specialize (Hm l c Hw). destruct (m l c) as [c1 r]. cbn [fst] in Hm.
+  destruct r as [a|e| |]; cbn [fst]; try exact Hm. destruct e; cbn [fst]; try exact Hm. apply Hh; exact Hm.
+Qed.
+Lemma resp_add_cost u n : Resp (add_cost u n).
+Proof.
+  intros [qd qs] [sd ss] [Hd Hs]. unfold add_cost, within in *. cbn [fst snd] in *.
+  destruct qd as [q|].
+  - destruct (q <? _) eqn:E; cbn [fst snd]; [split; assumption|]. apply N.ltb_ge in E.
+    destruct u.
+    + destruct qs as [q'|].
+      * destruct (q' <? _) eqn:E'; cbn [fst snd]; [split; assumption|]. apply N.ltb_ge in E'. split; assumption.
+      * cbn [fst snd]. split; [assumption|exact I].
+    + cbn [fst snd]. split; assumption.
+  - destruct u.
+    + destruct qs as [q'|].
+      * destruct (q' <? _) eqn:E'; cbn [fst snd]; [split; [exact I|assumption]|]. apply N.ltb_ge in E'. split; [exact I|assumption].
+      * cbn [fst snd]. split; exact I.
+    + cbn [fst snd]. split; [exact I|assumption].
+Qed.
+Lemma resp_checked_mul a b : Resp (checked_mul a b).
+Proof. unfold checked_mul. destruct (a * b <=? usize_max); [apply resp_ret|apply resp_failM]. Qed.
+Lemma resp_tr E t : Resp (tr E t).
+Proof. unfold tr. destruct (trace E t); [apply resp_ret|apply resp_failM]. Qed.
+Lemma resp_unroll1 u E t : Resp (unroll1 u E t).
+Proof. unfold unroll1. destruct (is_var t); [|apply resp_ret]. apply resp_bind; [apply resp_add_cost|intros; apply resp_tr]. Qed.
+Lemma resp_unroll u E e w : Resp (unroll u E e w).
+Proof. unfold unroll. apply resp_bind; [apply resp_unroll1|intros]. apply resp_bind; [apply resp_unroll1|intros; apply resp_ret]. Qed.
+
+Ltac resp_step :=
+  first
+    [ apply resp_ret | apply resp_liftR | apply resp_failM | apply resp_add_cost | apply resp_checked_mul
+    | apply resp_tr | apply resp_unroll | apply resp_unroll1
+    | apply resp_bind; [|intros]
+    | apply resp_catch
+    | assumption ].
+Ltac resp_case :=
+  match goal with
+  | |- Resp (match ?x with _ => _ end) => destruct x
+  | |- Resp (if ?b then _ else _) => destruct b
+  | |- Resp (let (_, _) := ?x in _) => destruct x
+  | |- Resp (match ?x with _ => _ end _) => destruct x
+  | |- Resp (match ?x with _ => _ end _ _ _) => destruct x
+  end.
+Ltac resp := repeat (first [resp_step | resp_case]).
+
+Lemma resp_de_nat u bs : Resp (de_nat u bs). Proof. unfold de_nat. resp. Qed.
+Lemma resp_de_int u w bs : Resp (de_int u w bs). Proof. unfold de_int. resp. Qed.
+Lemma resp_rep {A} (step : list N -> M (A * list N)) :
+  (forall bs, Resp (step bs)) -> forall n bs, Resp (rep n step bs).
+Proof.
+  intros Hs n; induction n as [|n IH]; intros bs; cbn [rep]; [apply resp_ret|].
+  apply resp_bind; [apply Hs|intros]. apply resp_bind; [apply IH|intros; apply resp_ret].
+Qed.
+Lemma resp_de_fields rec E u h lc :
+  (forall u0 h0 lc0 te tw bs, Resp (rec u0 h0 lc0 te tw bs)) ->
+  forall k es ws bs, Resp (de_fields rec E u h lc k es ws bs).
+Proof.
+  intros Hr k; induction k as [|k IH]; intros es ws bs; cbn [de_fields]; [apply resp_liftR|].
+  apply resp_bind; [apply resp_add_cost|intros _].
+  destruct es as [|[i te] es']; destruct ws as [|[j tw] ws'].
+  - apply resp_ret.
+  - resp; try apply Hr; try apply IH.
+  - resp; try apply Hr; try apply IH.
+  - destruct (i =? j); [|destruct (i <? j)]; resp; try apply Hr; try apply IH.
+Qed.
+Theorem resp_de : forall f E u h lc e w bs, Resp (de f E u h lc e w bs).
+Proof.
+  induction f as [|f IH]; intros E u h lc e w bs; [apply resp_liftR|].
+  cbn [de].
+  apply resp_bind; [apply resp_unroll|intros [e' w']].
+  destruct e';
+    repeat first [ apply resp_de_fields; intros | apply resp_rep; intros | apply IH | apply resp_de_nat | apply resp_de_int
+                 | resp_step | resp_case | progress cbv beta ].
+Qed.
